@@ -34,7 +34,7 @@ def main():
             mod.replay(rep, wd, payload)
         else:
             mod.run(rep, wd, a.tier, seed)
-        return rep.finish()
+        return rep.finish(write_evidence=not a.replay)
     except core.MachineryError as ex:
         print('MACHINERY-FAILURE %s: %s' % (pid, ex))
         return 2
